@@ -30,6 +30,35 @@ Definition expected_result (sh : call_shape) (s : mgmt) : list (string * Z) :=
   | None => []
   end.
 
+(* ---- the same with rules that FAIL: [fails n] says that the rule named n fails (and therefore returns nothing).  The
+   result then depends on the execution MODEL — the sort and concurrent models run the other rules, the mix model runs
+   nothing else when the top rule fails, the inverse-mix model does not run the lowest rule when another failed —
+   which makes the model a pool actually uses observable through the result map (C16). ---- *)
+Definition erule_of_k (fails : string -> bool) (r : rule) : erule :=
+  mkER (rname r) (rsal r) (fails (rname r)) (negb (fails (rname r))) false (Some (rbody r)).
+
+Definition expected_result_k (fails : string -> bool) (sh : call_shape) (s : mgmt) : list (string * Z) :=
+  if m_clear s then [] else
+  let k := m_master s in
+  let c := mkCfg (map (erule_of_k fails) (sorted k)) true (sh_n sh) (sh_m sh) (sh_names sh) (sh_layers sh) false None in
+  match o_map (spec_outcome (sh_entry sh) c) with
+  | Some m => flat_map (fun nv => match snd nv with Some v => [(fst nv, v)] | None => [] end) m
+  | None => []
+  end.
+
+(* the entry point behind the *SpecifiedEM wrappers for each execution model *)
+Definition entry_of_model (m : nat) : entry :=
+  match m with
+  | 1 => EExecute
+  | 2 => EExecuteConcurrent
+  | 3 => EExecuteMixModel
+  | _ => EExecuteInverseMixModel
+  end.
+
+(* what an execution through a *SpecifiedEM wrapper hands back in pool state [s]: the denoted model on the denoted set *)
+Definition expected_em_result (fails : string -> bool) (s : mgmt) : list (string * Z) :=
+  expected_result_k fails (mkShape (entry_of_model (m_model s)) 0 0 [] []) s.
+
 Record op_obs := mkOO { oo_op : mop; oo_begin : nat; oo_end : nat; oo_ok : bool }.
 
 (* version 0 = the initial set; version j = the state after the j-th management call (a call that failed installs nothing) *)
